@@ -10,6 +10,7 @@ CONSTANTS
   ExtNames = {"a", "b"}
   MaxFiles = {2, 1000000}
   FaultSet <- FaultsAll
+  Restarts = {"keep", "file", "empty"}
   WhatIf = "none"
 SPECIFICATION Spec
 INVARIANT NoViolation
